@@ -39,7 +39,9 @@ CLAIMS = {
     "C16": ("Lean theorems (load, worksteal): every scheduler call keeps the complete wire log free of anything behind a node's shutdown (hence one shutdown per node), "
             "keeps the ledger duplicate-free (no index outstanding on two nodes) and in range; run commands are pool prefixes, steal requests book suffixes; "
             "WorkerController.shutdown is modelled and proved idempotent; controller level (worksteal): along every sequence of controller events with legal steal answers the wire log has nothing behind "
-            "a shutdown signal and at most one shutdown per worker; other modes: correspondence + wire monitors",
+            "a shutdown signal and at most one shutdown per worker; whole system (load, no undecodable message): in every reachable state no test follows the shutdown command in a live "
+            "worker's inbox or the marker in its queue (C16_sys_load_nothing_behind_the_shutdown_marker; wire-delta facts per scheduler call and per loop iteration, Sched/LoadWd); "
+            "other modes: correspondence + wire monitors",
             "contract invariants NoAfter/SentSync/Nodup/Bounded preserved by every act + refinement, lifted to the DSession loop by induction over events (Lean 4) ; differential correspondence of all six schedulers with wire monitors"),
     "C15": ("Lean theorems: mark_test_pending inserts at the front of the pool; per index #completed + #crash-reported = 1 + #re-queued when the ledger is empty; "
             "unsupported modes raise NotImplementedError. Whole system (--dist load, every execution without an undecodable message): at the end of a session without stop reason and "
@@ -71,9 +73,11 @@ CLAIMS = {
             "swallowed, counted and replaced per budget; it can raise only if remove_node raises something other than KeyError, the crash hook raises, or the node is not active. "
             "Whole system, --dist load (every worker collects the same non-empty list, no undecodable message): in every reachable state the iteration of the controller loop that handles "
             "the oldest event of any worker - ready, collection, completion, report, log event, death notice, and workerfinished with exit status 2 / a stop request / an unknown node - "
-            "returns: no AssertionError, KeyError, ValueError, IndexError, ZeroDivisionError, TypeError (C17_sys_load_events_never_raise, C17_sys_load_workerfinished_never_raises_partial); "
+            "returns: no AssertionError, KeyError, ValueError, IndexError, ZeroDivisionError, TypeError; and so does workerfinished of a registered worker that finished normally "
+            "(assert not crashitem: its book is empty, by 'nothing behind the shutdown marker' at whole-system level) - C17_sys_load_controller_never_raises: whichever event the "
+            "controller takes, the iteration returns; "
             "no stand-off at any stage incl. start-up deaths is C02_sys_load_no_standoff_any_phase; exactly-once after crashes is C03_sys_load_accounting_at_end. "
-            "Partial: workerfinished of a registered worker that finished normally (assert not crashitem) and the other modes are validated by the whole-system simulation, not proved",
+            "Partial: load only, equal collections (else F4), no undecodable message (else F7b); the other modes are validated by the whole-system simulation, not proved",
             "receiver model theorems by induction over the message stream, handler case analysis; whole-system invariant layers + totality of the scheduler functions under them (Lean 4) ; differential correspondence of the real process_from_remote; whole-system simulation with deaths at every lifecycle point and undecodable messages"),
     "C04": ("Lean theorems: per worker the receiver posts the worker's events exactly once in the order sent; a test report is published tagged with its worker and counted once; "
             "for any sequence of collection reports from any workers the published ones are the distinct texts in first-occurrence order, each counted once. Partial: field fidelity of "
